@@ -1020,3 +1020,30 @@ REFACTORS += [
 
 pub struct MultiRecordLog {""")]),
 ]
+
+REFACTORS += [
+    dict(name='scan_metadata_is_file', desc='directory scan tests dir_entry.metadata()?.is_file() (lstat semantics, same as file_type)',
+         edits=[(DIR, 'if !dir_entry.file_type()?.is_file() {', 'if !dir_entry.metadata()?.is_file() {')]),
+]
+
+MUTANTS += [
+    dict(name='scan_skips_empty_files', props=['C02', 'C17', 'C01'], rules=['FS6'], desc='the scan ignores zero-length WAL files (crash leftovers stay untracked)',
+         edits=[(DIR, """            if !dir_entry.file_type()?.is_file() {
+                continue;
+            }""", """            if !dir_entry.file_type()?.is_file() {
+                continue;
+            }
+            if dir_entry.metadata()?.len() == 0 {
+                continue;
+            }""")]),
+    dict(name='scan_follows_symlinks', props=['C17'], rules=['FS3'], desc='the scan uses Path::is_file (follows symlinks)',
+         edits=[(DIR, 'if !dir_entry.file_type()?.is_file() {', 'if !dir_entry.path().is_file() {')]),
+    dict(name='gc_unlinks_newest_first', props=['C02', 'C01'], rules=['GC5'], desc='gc collects the unused files first and unlinks them newest-first',
+         edits=[(DIR, """        while let Some(file) = self.files.take_first_unused() {
+            let filepath = filepath(&self.dir, &file);""", """        let mut unused_files: Vec<FileNumber> = Vec::new();
+        while let Some(file) = self.files.take_first_unused() {
+            unused_files.push(file);
+        }
+        while let Some(file) = unused_files.pop() {
+            let filepath = filepath(&self.dir, &file);""")]),
+]
